@@ -56,4 +56,31 @@ example : ∃ bits, encIntColumn false ([some 5, none, some 5, some 9].map (Opti
     (by omega) (by simp) (by simp) (fun _ => ⟨5, by simp⟩)
     (by intro x y hx hy; simp at hx hy; rcases hx with rfl | rfl <;> rcases hy with rfl | rfl <;> simp)
 
+/-- `ColOK` is exactly "the specification column for some legal width whose zero-ness matches the
+    flag" (the relation and the parametrised writer of C05 define the same set of bit strings). -/
+theorem C02_colOK_iff_legal (w : Nat) (raws : List (Option Nat)) (sawEqual : Bool) (bits : Bits)
+    (hr : Spec.InRange w raws) :
+    Spec.ColOK w raws sawEqual bits ↔
+      ∃ d, Spec.LegalWidth d raws ∧ (d = 0 ↔ sawEqual = true) ∧
+        bits = Spec.intColumnBitsWith d raws w :=
+  ⟨legal_of_colOK w raws sawEqual bits, fun ⟨d, hd, hf, hb⟩ => hb ▸ colOK_of_legal w d raws sawEqual hr hd hf⟩
+
+/-- … and it is strong enough to determine what a reader gets: any bits that are `ColOK` for a
+    column are decoded (by the decoder, hence by the independent reader) as that column. -/
+theorem C02_colOK_decodes (w : Nat) (raws : List (Option Nat)) (sawEqual : Bool) (bits suf : Bits)
+    (hw : 0 < w) (hw64 : w ≤ 64) (hr : Spec.InRange w raws) (hw1 : w = 1 → ∃ x, some x ∈ raws)
+    (h : Spec.ColOK w raws sawEqual bits) :
+    readColumn w raws.length (bits ++ suf) = .ok (raws, suf) := by
+  obtain ⟨d, hd, _, hb⟩ := legal_of_colOK w raws sawEqual bits h
+  rw [hb]; exact C05_every_legal_width w d raws suf hw hw64 hr hw1 hd
+
+/-- `ColOK` discriminates: a column whose missing entry is written as zero instead of all ones
+    (a DESIGN Appendix-A mutation) is not `ColOK`. -/
+example : ¬ Spec.ColOK 4 [some 5, none, some 6] false
+    (toBits 4 5 ++ toBits 6 2 ++ toBits 2 0 ++ toBits 2 0 ++ toBits 2 1) := by
+  intro h
+  have := C02_colOK_decodes 4 [some 5, none, some 6] false _ [] (by omega) (by omega)
+    (by intro x hx; simp at hx; rcases hx with rfl | rfl <;> simp) (by omega) h
+  revert this; decide
+
 end Bufr
